@@ -8,7 +8,7 @@ public Fandango.fuzz(desired_solutions=1, initial_population=[satisfying word]) 
 """
 from __future__ import annotations
 
-from mc.common import Ctx, pmap
+from mc.common import Ctx, pmap, tag, pmap_tagged
 from mc.fd import build, snap
 
 LEVEL = "model_checking"
@@ -101,7 +101,7 @@ def run(ctx: Ctx) -> None:
                 continue
             for order in range(3):
                 items.append((h, r, order, (h + r <= (8 if ctx.quick else 12)) and order == 0))
-    results = pmap(work, items, chunk=4)
+    results = pmap_tagged(work, items, chunk=4)
     fitness_values = set()
     api_runs = 0
     for res in results:
